@@ -7,7 +7,7 @@ floors                     = minimal frequency (fraction <1) or count (>=1) of a
 SPECS = {}
 
 # properties whose checks are finished, validated and claimed in MANIFEST.json (others stay under not_applicable)
-READY = ["C01", "C02", "C03", "C04", "C05", "C06", "C07", "C08", "C09", "C10", "C11", "C12", "C14", "C15", "C16", "C17", "C18", "C19", "C20"]
+READY = ["C01", "C02", "C03", "C04", "C05", "C06", "C07", "C08", "C09", "C10", "C11", "C12", "C13", "C14", "C15", "C16", "C17", "C18", "C19", "C20"]
 
 SETUP_CMD = ("cd /verif/harness && GOFLAGS=-mod=mod GOPROXY=off GOSUMDB=off GOTOOLCHAIN=local "
              "go build ./internal/... ; true")
